@@ -19,8 +19,8 @@ import (
 	"github.com/enbility/spine-go/spine"
 )
 
-// leanStr renders a Go string as a Lean string literal.
-func leanStr(s string) string {
+// c18LeanStr renders a Go string as a Lean string literal.
+func c18LeanStr(s string) string {
 	var b strings.Builder
 	b.WriteByte('"')
 	for _, r := range s {
@@ -41,14 +41,14 @@ func leanStr(s string) string {
 	return b.String()
 }
 
-func leanBool(b bool) string {
+func c18LeanBool(b bool) string {
 	if b {
 		return "true"
 	}
 	return "false"
 }
 
-// nameKey is the injective number the Lean side uses instead of a string
+// c18NameKey is the injective number the Lean side uses instead of a string
 // wherever names are compared by the kernel (`decide +kernel` on strings is
 // hopelessly slow; on Nat literals it is GMP arithmetic): the bytes of the
 // name read as a base-256 numeral, written as a hexadecimal literal, so the
@@ -56,7 +56,7 @@ func leanBool(b bool) string {
 // string is 0. A leading NUL byte cannot occur in a Go identifier, json name or
 // tag value, so the map is injective on everything the tables contain (the
 // generators fail loudly on a NUL byte).
-func nameKey(s string) string {
+func c18NameKey(s string) string {
 	if s == "" {
 		return "0"
 	}
@@ -73,16 +73,16 @@ func nameKey(s string) string {
 
 // ---------------------------------------------------------------- factory (G1)
 
-type fnInfo struct {
+type c18FnInfo struct {
 	Name     string       // model.FunctionType
 	Payload  reflect.Type // T of FunctionData[T]
 	Updater  bool         // *T implements model.Updater (what SupportsPartialWrite reports)
 	Features []string     // feature types whose factory call registers it, sorted
 }
 
-// featureTypeConsts lists the constants of type model.FeatureTypeType declared
+// c18FeatureTypeConsts lists the constants of type model.FeatureTypeType declared
 // in RepoDir()/model/*.go (name and string value), in source order.
-func featureTypeConsts() ([][2]string, error) {
+func c18FeatureTypeConsts() ([][2]string, error) {
 	files, err := filepath.Glob(filepath.Join(RepoDir(), "model", "*.go"))
 	if err != nil {
 		return nil, err
@@ -132,27 +132,27 @@ func featureTypeConsts() ([][2]string, error) {
 	return out, nil
 }
 
-type factoryDump struct {
-	Fns      []*fnInfo           // sorted by name
+type c18FactoryDump struct {
+	Fns      []*c18FnInfo           // sorted by name
 	ByFeat   map[string][]string // feature type -> function names in factory order
 	Feats    []string            // feature types with a non-empty registration, sorted
 	Unknown  []string            // feature type constants for which the factory panics
 	Conflict []string            // the same function name registered with two payload types
 }
 
-var factoryCache *factoryDump
+var c18FactoryCache *c18FactoryDump
 
-// dumpFactory executes spine.CreateFunctionData for every feature type constant.
-func dumpFactory() (*factoryDump, error) {
-	if factoryCache != nil {
-		return factoryCache, nil
+// c18DumpFactory executes spine.CreateFunctionData for every feature type constant.
+func c18DumpFactory() (*c18FactoryDump, error) {
+	if c18FactoryCache != nil {
+		return c18FactoryCache, nil
 	}
-	consts, err := featureTypeConsts()
+	consts, err := c18FeatureTypeConsts()
 	if err != nil {
 		return nil, err
 	}
-	d := &factoryDump{ByFeat: map[string][]string{}}
-	byName := map[string]*fnInfo{}
+	d := &c18FactoryDump{ByFeat: map[string][]string{}}
+	byName := map[string]*c18FnInfo{}
 	for _, c := range consts {
 		ft := model.FeatureTypeType(c[1])
 		var fns []api.FunctionDataCmdInterface
@@ -183,7 +183,7 @@ func dumpFactory() (*factoryDump, error) {
 				old.Features = append(old.Features, c[1])
 				continue
 			}
-			byName[name] = &fnInfo{Name: name, Payload: pt.Elem(), Updater: fd.SupportsPartialWrite(), Features: []string{c[1]}}
+			byName[name] = &c18FnInfo{Name: name, Payload: pt.Elem(), Updater: fd.SupportsPartialWrite(), Features: []string{c[1]}}
 		}
 	}
 	for _, f := range byName {
@@ -194,13 +194,13 @@ func dumpFactory() (*factoryDump, error) {
 	sort.Strings(d.Feats)
 	sort.Strings(d.Unknown)
 	sort.Strings(d.Conflict)
-	factoryCache = d
+	c18FactoryCache = d
 	return d, nil
 }
 
 // ---------------------------------------------------------------- tag tables (G2)
 
-type cmdField struct {
+type c18CmdField struct {
 	Idx     int
 	Go      string
 	JSON    string
@@ -211,7 +211,7 @@ type cmdField struct {
 	Type    string // Go name of the pointed-to / element type
 }
 
-type filterField struct {
+type c18FilterField struct {
 	Idx     int
 	Go      string
 	JSON    string
@@ -225,7 +225,7 @@ type filterField struct {
 	rtype   reflect.Type
 }
 
-func jsonName(sf reflect.StructField) (string, bool) {
+func c18JsonName(sf reflect.StructField) (string, bool) {
 	tag := sf.Tag.Get("json")
 	parts := strings.Split(tag, ",")
 	name := parts[0]
@@ -241,46 +241,46 @@ func jsonName(sf reflect.StructField) (string, bool) {
 	return name, oe
 }
 
-func elemName(t reflect.Type) string {
+func c18ElemName(t reflect.Type) string {
 	for t.Kind() == reflect.Ptr || t.Kind() == reflect.Slice {
 		t = t.Elem()
 	}
 	return t.Name()
 }
 
-func dumpCmdFields() []cmdField {
+func c18DumpCmdFields() []c18CmdField {
 	t := reflect.TypeOf(model.CmdType{})
-	var out []cmdField
+	var out []c18CmdField
 	for i := 0; i < t.NumField(); i++ {
 		sf := t.Field(i)
 		tags := model.EEBusTags(sf) // the repository's own tag parser
 		fct, has := tags[model.EEBusTagFunction]
-		jn, _ := jsonName(sf)
-		out = append(out, cmdField{Idx: i, Go: sf.Name, JSON: jn, IsPtr: sf.Type.Kind() == reflect.Ptr,
-			Skipped: sf.Name == "Function" || sf.Name == "Filter", HasFct: has, Fct: fct, Type: elemName(sf.Type)})
+		jn, _ := c18JsonName(sf)
+		out = append(out, c18CmdField{Idx: i, Go: sf.Name, JSON: jn, IsPtr: sf.Type.Kind() == reflect.Ptr,
+			Skipped: sf.Name == "Function" || sf.Name == "Filter", HasFct: has, Fct: fct, Type: c18ElemName(sf.Type)})
 	}
 	return out
 }
 
-func dumpFilterFields() []filterField {
+func c18DumpFilterFields() []c18FilterField {
 	t := reflect.TypeOf(model.FilterType{})
-	var out []filterField
+	var out []c18FilterField
 	for i := 0; i < t.NumField(); i++ {
 		sf := t.Field(i)
 		tags := model.EEBusTags(sf)
 		fct, hasF := tags[model.EEBusTagFunction]
 		typ, hasT := tags[model.EEBusTagType]
-		jn, _ := jsonName(sf)
-		out = append(out, filterField{Idx: i, Go: sf.Name, JSON: jn, IsPtr: sf.Type.Kind() == reflect.Ptr,
+		jn, _ := c18JsonName(sf)
+		out = append(out, c18FilterField{Idx: i, Go: sf.Name, JSON: jn, IsPtr: sf.Type.Kind() == reflect.Ptr,
 			Skipped: sf.Name == "CmdControl" || sf.Name == "FilterId", HasFct: hasF, Fct: fct, HasTyp: hasT, Typ: typ,
-			Type: elemName(sf.Type), rtype: sf.Type})
+			Type: c18ElemName(sf.Type), rtype: sf.Type})
 	}
 	return out
 }
 
-// itemTypes returns the element struct types of the slice fields of a payload
+// c18ItemTypes returns the element struct types of the slice fields of a payload
 // struct ("the list's item type(s)").
-func itemTypes(p reflect.Type) []reflect.Type {
+func c18ItemTypes(p reflect.Type) []reflect.Type {
 	var out []reflect.Type
 	if p.Kind() != reflect.Struct {
 		return out
@@ -294,14 +294,14 @@ func itemTypes(p reflect.Type) []reflect.Type {
 	return out
 }
 
-// expectedFilterFields: which FilterType field the DATA MODEL provides for the
+// c18ExpectedFilterFields: which FilterType field the DATA MODEL provides for the
 // selectors resp. elements of a function with payload type P — decided from Go
 // type names only, never from the eebus tags (the tags are what is checked):
 //   selectors: the field of type *<P>SelectorsType          (P = payload type name without "Type")
 //   elements : the field of type *<P>ElementsType, or, for a list payload, the
 //              field of type *<I>ElementsType for the item type I of its list
 // -1 where the data model defines none.
-func expectedFilterFields(p reflect.Type, ff []filterField) (sel, el int) {
+func c18ExpectedFilterFields(p reflect.Type, ff []c18FilterField) (sel, el int) {
 	sel, el = -1, -1
 	base := strings.TrimSuffix(p.Name(), "Type")
 	for _, f := range ff {
@@ -313,7 +313,7 @@ func expectedFilterFields(p reflect.Type, ff []filterField) (sel, el int) {
 		}
 	}
 	if el < 0 {
-		for _, it := range itemTypes(p) {
+		for _, it := range c18ItemTypes(p) {
 			ib := strings.TrimSuffix(it.Name(), "Type")
 			for _, f := range ff {
 				if f.Type == ib+"ElementsType" && el < 0 {
